@@ -651,7 +651,7 @@ func run(tb ev.TB, c groupCase) (labels []string, nontrivial bool) {
 		start  time.Time
 		end    time.Time
 		beats  int
-		silent time.Time // arrival of the heartbeat the coordinator never answered: none can follow it
+		silent time.Time // arrival of the first heartbeat the coordinator never answered, refused or dropped: none is due after it
 		first  time.Time // arrival of the first and of the last heartbeat
 		last   time.Time
 		times  []time.Time
@@ -686,7 +686,12 @@ func run(tb ev.TB, c groupCase) (labels []string, nontrivial bool) {
 			return
 		}
 		gi.beats++
-		if ex.Tag == "hb-silent" {
+		if ex.Tag == "hb-silent" && gi.silent.IsZero() {
+			gi.silent = ex.At
+		}
+		// a heartbeat that the coordinator refused (error code, rebalance in progress) or dropped ends the generation too,
+		// whether or not a function is there to see it: no heartbeat is due after it
+		if code, _ := ex.RespBody["ErrorCode"].(int64); (code != 0 || ex.Tag == "hb-drop" || ex.Tag == "hb-error") && gi.silent.IsZero() {
 			gi.silent = ex.At
 		}
 		if gi.first.IsZero() {
